@@ -22,8 +22,9 @@
 (* results: 1 holds, 0 does not hold, 2 = not fixed unambiguously by the      *)
 (* Sass semantics at the granularity of this model (numbers that differ by    *)
 (* a few ulps - Sass compares with a tolerance whose exact size is not part   *)
-(* of the property -, unitless against unit, NaN against itself, maps that    *)
-(* are equal up to order: that is C13's).                                     *)
+(* of the property -, unitless against unit, NaN against itself).  Maps are   *)
+(* compared order-free: same size and every entry of one has an entry of the  *)
+(* other with an equal key and an equal value (a missing key is NOT a null).  *)
 (*                                                                         *)
 (* Named deviation:                                                          *)
 (*   numeq_relative_to_lhs   Number::eq is |a-b| / |a| <= 2^-52, relative to  *)
@@ -32,10 +33,16 @@
 (*                           convertible units the f64 conversion noise       *)
 (*                           decides (nearly) equal quantities: == < > are    *)
 (*                           not predicted there, the other laws still hold   *)
+(*                           (repaired in the tree: symmetric epsilon)        *)
+(*   numeq_conversion_noise  what remains after that repair: quantities that  *)
+(*                           are exactly equal in convertible units are       *)
+(*                           compared after an f64 conversion of the RIGHT    *)
+(*                           operand with a 1-ulp tolerance, so == < > depend *)
+(*                           on the rounding noise and on the argument order  *)
 (***************************************************************************)
 EXTENDS Units
 
-ValueDevs == {"numeq_relative_to_lhs"}
+ValueDevs == {"numeq_relative_to_lhs", "numeq_conversion_noise"}
 
 V(t, s, n, d, j, e, u, es) == [t |-> t, s |-> s, n |-> n, d |-> d, j |-> j, e |-> e, u |-> u, es |-> es]
 NumV(n, d, u)       == V("num", "", n, d, 0, 0, u, <<>>)
@@ -109,7 +116,7 @@ NumEq(a, b, Dev) ==
             (* rsass converts b with f64 factors and then applies the relative   *)
             (* epsilon: for (nearly) equal quantities the outcome depends on the *)
             (* rounding noise of the conversion                                  *)
-            ELSE IF s = 0 THEN (IF "numeq_relative_to_lhs" \in Dev THEN 2 ELSE IF a.j = 0 /\ b.j = 0 THEN 1 ELSE 2)
+            ELSE IF s = 0 THEN (IF Dev \cap {"numeq_relative_to_lhs", "numeq_conversion_noise"} # {} THEN 2 ELSE IF a.j = 0 /\ b.j = 0 THEN 1 ELSE 2)
             ELSE IF \A i \in DOMAIN bb : bb[i].pi = 0
                  THEN (IF ClearlyDifferent(xa, ValDec(bb)) THEN 0 ELSE 2)
                  ELSE 2
@@ -134,12 +141,13 @@ Eq(a, b, Dev) ==
               ELSE IF a.n # b.n \/ a.s # b.s \/ Len(a.es) # Len(b.es) THEN 0
               ELSE Comb([i \in DOMAIN a.es |-> Eq(a.es[i], b.es[i], Dev)])
          [] a.t = "map"   ->
+              (* order-free: every entry of a has an entry of b with an equal key and an equal value *)
               IF Len(a.es) # Len(b.es) THEN 0
-              ELSE LET inorder == Comb([i \in DOMAIN a.es |-> Eq(a.es[i], b.es[i], Dev)]) IN
-                   IF inorder = 1 THEN 1
-                   ELSE IF \A i \in DOMAIN a.es : \E k \in DOMAIN b.es : Eq(a.es[i], b.es[k], Dev) # 0
-                        THEN 2            \* equal up to order or up to ambiguity: left to C13
-                        ELSE 0
+              ELSE Comb([i \in DOMAIN a.es |->
+                     IF \E k \in DOMAIN b.es : Eq(a.es[i].es[1], b.es[k].es[1], Dev) = 1 /\ Eq(a.es[i].es[2], b.es[k].es[2], Dev) = 1
+                     THEN 1
+                     ELSE IF \E k \in DOMAIN b.es : Eq(a.es[i].es[1], b.es[k].es[1], Dev) # 0 /\ Eq(a.es[i].es[2], b.es[k].es[2], Dev) # 0
+                     THEN 2 ELSE 0])
          [] OTHER -> 2
 
 (* a < b for numbers *)
@@ -159,7 +167,7 @@ Lt(a, b, Dev) ==
             LET bb == VScale(VRat(Rat(b)), Factor(b.u, a.u, {}))
                 s  == VSign(VAdd(VRat(Rat(a)), VNeg(bb))) IN
             IF s = 2 THEN 2
-            ELSE IF s = 0 THEN (IF "numeq_relative_to_lhs" \in Dev THEN 2 ELSE IF a.j = 0 /\ b.j = 0 THEN 0 ELSE 2)
+            ELSE IF s = 0 THEN (IF Dev \cap {"numeq_relative_to_lhs", "numeq_conversion_noise"} # {} THEN 2 ELSE IF a.j = 0 /\ b.j = 0 THEN 0 ELSE 2)
             ELSE IF \A i \in DOMAIN bb : bb[i].pi = 0
                  THEN (IF ClearlyDifferent(xa, ValDec(bb)) THEN (IF s < 0 THEN 1 ELSE 0) ELSE 2)
                  ELSE 2
